@@ -136,19 +136,43 @@ MOVED_V = ((1, 2, -1), (0, 0, 3), (-2, 1, 0))
 
 
 def eval_moved_inter(prop, fam, a, b):
-    """intersect, then repeatedly move one operand *in place* and intersect the same two objects again;
-    every answer is compared with the exact intersection of the translated operands."""
+    """The scene (a, b) is reached by an in-place move: operand a is built displaced by -v0, queried there
+    (which primes whatever a refactoring may cache), then moved by v0 onto its place; the same two objects are
+    then intersected and compared with the exact intersection of (a, b) - so every relation cell of the
+    underlying family (touching, collinear, nested ...) is exercised on a moved operand.  Afterwards the
+    operands are moved alternately by further vectors, and the object returned by move() is used as well."""
     e0, cell, skip = model_inter(a, b)
     if skip:
         return skip, []
-    la, lb = lib.to_lib(a), lib.to_lib(b)
     cellname = 'moved|%s,%s' % (a[0], b[0])
-    r = lib.call(intersection, la, lb)
-    ok, why = lib.matches(r, e0)
-    if not ok:
-        return cellname, []          # the static scene is the other families' business
+    v0 = MOVED_V[0]
+    if a[0] == 'Point' and b[0] != 'Point':
+        a, b = b, a
+    a_start = X.xform(a, ID3, 1, X.neg(v0))
+    la, lb = lib.to_lib(a_start), lib.to_lib(b)
+    lib.call(intersection, la, lb)
+    lib.call(hash, la)
+    ret = lib.call(la.move, lib.V(v0))
+    if isinstance(ret, lib.Raised):
+        return cellname, [Viol('%s|moved|%s,%s|move-raises:%s' % (prop, a[0], b[0], ret.cls), core.enc((a, b)), 'moved operand', repr(ret), '')]
+    for who, obj in (('receiver', la), ('returned', ret)):
+        for form, th in (('ab', lambda: intersection(obj, lb)), ('ba', lambda: intersection(lb, obj))):
+            r = lib.call(th)
+            ok, why = lib.matches(r, e0)
+            if not ok:
+                return cellname, [Viol('%s|moved|%s-%s|%s,%s|%s-after-in-place-move' % (prop, who, form, a[0], b[0], why), core.enc((a, b)), core.enc(e0), lib.describe(r),
+                                       'operand a was built displaced by %r, queried, then moved in place onto its position; intersection with the %s object' % (X.neg(v0), who))]
+    # the returned object and the receiver are independent: move the receiver away and back, the returned one stays
+    if a[0] in X.BODY:
+        lib.call(la.move, lib.V(MOVED_V[2]))
+        r = lib.call(intersection, ret, lb)
+        ok, why = lib.matches(r, e0)
+        if not ok:
+            return cellname, [Viol('%s|moved|returned-object-follows-the-receiver|%s,%s|%s' % (prop, a[0], b[0], why), core.enc((a, b)), core.enc(e0), lib.describe(r),
+                                   'the object returned by move() changed when the receiver was moved again')]
+        lib.call(la.move, lib.V(X.neg(MOVED_V[2])))
     ta, tb = a, b
-    for i, v in enumerate(MOVED_V):
+    for i, v in enumerate(MOVED_V[1:], start=1):
         which = i % 2
         obj = (la, lb)[which]
         if obj is None or not hasattr(obj, 'move'):
